@@ -226,6 +226,28 @@ def main():
                 out["phase"] = "barrier_timeout"
                 return 3
             time.sleep(0.001)
+    def data_file(dev, feat, key):
+        f = dbm.get_db(dev)
+        return dbm.DatabaseManager().db.load_db_cfg_file(f.get_file_path(feat, key))
+
+    if cfg.get("work"):
+        # work with loaded data the way a tool does: change the dictionary that was handed out, then load something else
+        out["phase"] = "work"
+        for dev, feat, key in cfg["work"]["edit"]:
+            d = data_file(dev, feat, key)
+            if isinstance(d, dict):
+                for k in list(d)[:3]:
+                    if isinstance(d[k], dict):
+                        d[k]["c18_user_edit"] = 1
+                    elif isinstance(d[k], list):
+                        d[k].append("c18_user_edit")
+                    else:
+                        d[k] = "c18_user_edit"
+                d["c18_user_edit"] = {"x": 1}
+            elif isinstance(d, list):
+                d.append("c18_user_edit")
+        for dev, feat, key in cfg["work"]["then_load"]:
+            data_file(dev, feat, key)
     out["phase"] = "queries"
     q, A = cfg["queries"], out["answers"]
     if cfg.get("entry") == "cli":
@@ -244,6 +266,7 @@ def main():
     A["values"] = vals
     A["revisions"] = {d: [dbm.get_device(d).latest_rev, sorted(dbm.get_device(d).revisions.revision_names())] for d in q["revisions"]}
     A["schemas"] = {f: digest(dbm.get_schema_file(f)) for f in q["schemas"]}
+    A["data_files"] = {"%s/%s/%s" % (dev, feat, ".".join(key)): digest(data_file(dev, feat, key)) for dev, feat, key in q.get("data_files", [])}
     out["phase"] = "done"
     return 0
 
